@@ -86,15 +86,23 @@ def sort_xml(spec):
     return ''.join(a)
 
 
-def stylesheet(speclists, use_apply):
-    parts = ['<xsl:stylesheet version="1.0" xmlns:xsl="%s"><xsl:template match="/"><out>' % XSL]
+SELECT_FORMS = ['r/e', '$all', "key('every', 'k')", 'r/e | r/nosuch', 'xalan:nodeset($copy)/e']
+
+
+def stylesheet(speclists, use_apply, selform=0):
+    """the node list to sort is selected by a location path, a variable reference, a key() call, a union or out of a result tree
+    fragment: the sort must not depend on how the list was obtained"""
+    sel = SELECT_FORMS[selform]
+    parts = ['<xsl:stylesheet version="1.0" xmlns:xsl="%s" xmlns:xalan="http://xml.apache.org/xalan" exclude-result-prefixes="xalan">'
+             '<xsl:key name="every" match="r/e" use="\'k\'"/><xsl:variable name="all" select="/r/e"/><xsl:variable name="copy"><xsl:copy-of select="/r/e"/></xsl:variable>'
+             '<xsl:template match="/"><out>' % XSL]
     for i, specs in enumerate(speclists):
         sorts = ''.join(sort_xml(s) for s in specs)
         parts.append('<s n="%d">' % i)
         if use_apply:
-            parts.append('<xsl:apply-templates select="r/e" mode="m">%s</xsl:apply-templates>' % sorts)
+            parts.append('<xsl:apply-templates select="%s" mode="m">%s</xsl:apply-templates>' % (sel, sorts))
         else:
-            parts.append('<xsl:for-each select="r/e">%s<o id="{@id}" p="{position()}" l="{last()}"/></xsl:for-each>' % sorts)
+            parts.append('<xsl:for-each select="%s">%s<o id="{@id}" p="{position()}" l="{last()}"/></xsl:for-each>' % (sel, sorts))
         parts.append('</s>')
     parts.append('</out></xsl:template><xsl:template match="e" mode="m"><o id="{@id}" p="{position()}" l="{last()}"/></xsl:template></xsl:stylesheet>')
     return ''.join(parts)
@@ -192,9 +200,10 @@ def shard_main(shard, nshards, tier):
         for use_apply in (False, True):
             if use_apply and idx % 3 != 0 and fam == 'single':
                 continue
-            key = (fam, use_apply)
+            selform = (idx // nshards) % len(SELECT_FORMS)
+            key = (fam, use_apply, selform)
             if key not in sheets:
-                sheets[key] = stylesheet(speclists, use_apply)
+                sheets[key] = stylesheet(speclists, use_apply, selform)
             try:
                 r = w.request('tr', sheets[key], xml)
             except vlib.WorkerDied as wd:
@@ -215,7 +224,7 @@ def shard_main(shard, nshards, tier):
                 got_ids = [g[0] for g in got]
                 if exp_ids != list(range(len(items))):
                     counts['nontrivial'] += 1
-                how = 'apply-templates' if use_apply else 'for-each'
+                how = ('apply-templates' if use_apply else 'for-each') + ' select=' + SELECT_FORMS[selform]
                 spec_txt = ' '.join(sort_xml(s) for s in specs)
                 if sorted(got_ids) != list(range(len(items))):
                     kind = 'not-a-permutation'
@@ -262,7 +271,7 @@ def main():
     cov = {
         'evaluations': counts['evaluations'],
         'distinct_nontrivial': counts['nontrivial'],
-        'rule': 'Long lists with ties: every periodic list (period 1..4 / 1..5 over 3 values) and every list with one displaced element, of length 17 and 33 (thorough 16..65) x 16 single-key lists. Every node list of size 0..4 over 8 (quick) / 11 (thorough) key values (incl. empty string, NaN-valued, -0, the numeric-cache '
+        'rule': 'The list to sort is selected in turn by a location path, a variable reference, a key() call, a union and out of a result tree fragment. Long lists with ties: every periodic list (period 1..4 / 1..5 over 3 values) and every list with one displaced element, of length 17 and 33 (thorough 16..65) x 16 single-key lists. Every node list of size 0..4 over 8 (quick) / 11 (thorough) key values (incl. empty string, NaN-valued, -0, the numeric-cache '
                 'sentinel 135792468) and size 5(,6) over 4(5) values x 16 single-key lists (select x data-type x order); every list of 2..3(4) '
                 '(k,j) pairs over 9 pairs x 16 two-key lists; every list of 2..3(4) values over {a,B,b,A,z,a-umlaut} x lang {-,en,sv} x case-order x '
                 'order and two-key lists with different languages; in xsl:for-each and xsl:apply-templates. Oracle: a stable sort with the '
